@@ -326,8 +326,11 @@ struct _spawn_future_op_base {
         while (!evt_.ready())
           ;
 
-        // having synchronized with evt_, we can now clean up
-        deleter_(this, state);
+        // having synchronized with evt_, we can now clean up; state_ must be
+        // re-read here because a set_value() whose value copy threw has changed
+        // it from value to error since the load/CAS above (the error_ member,
+        // not values_, is the one that was constructed)
+        deleter_(this, state_.load(std::memory_order_relaxed));
 
         return;
 
